@@ -255,11 +255,10 @@ func (p *pair) downgrade(r *rng.R, ra, rb *rootSpec, wa *schema.WireSchema, case
 			continue
 		}
 		if len(trig) > 0 {
-			// the stream carries the known presence-bit overflow; the Go reader got through it by
-			// luck of the surrounding bits. The strict Lean decoder is not asked about a stream
-			// that is known to be corrupt (it reports eof-bits on some of them).
-			stats["downgrade-trigger-streams-read-ok-not-sent-to-lean"]++
-			continue
+			// optional fields beyond A's field count were present when the B writer encoded in
+			// schema A (the repaired defect downgrade-presence-overflow): such streams are judged
+			// by the Lean decoder like all the others
+			stats["downgrade-trigger-streams-read-ok"]++
 		}
 		emitDecode(p.a, ra.name, res.stream, okLine(oc.masks, want))
 		if len(res.truths) >= 2 && want[len(want)-1] != res.truths[len(res.truths)-1] {
